@@ -1925,6 +1925,9 @@ func main() {
 			last == "return s.commit(rec, false)"
 	}(),
 		"`recoverTable` contains no call of `s.create()`, `newManifest` or `SetMeta`; its only commit is its last statement `return s.commit(rec, false)` (with `s.manifest == nil` that is `newManifest(rec, nv)`: the D33 repair)")
+	o.boolean("memPutSetsKeyLenOnOverwrite", ifBodySeq("leveldb/memdb/memdb.go", "DB.Put", "node, exact := p.findGE(key, true); exact",
+		[]string{"p.nodeData[node] = kvOffset", "p.nodeData[node+nKey] = len(key)", "p.nodeData[node+nVal] = len(value)"}),
+		"the overwrite branch of `memdb.Put` (`if node, exact := p.findGE(key, true); exact`) points the node at the appended pair and sets BOTH lengths, `nodeData[node+nKey] = len(key)` and `nodeData[node+nVal] = len(value)` (the D56 repair: a comparer may call keys of different lengths equal)")
 	o.boolean("blockSeekGuardsIndex", func() bool {
 		t := funcText("leveldb/table/reader.go", "block.seek")
 		g := strings.Index(t, "if index >= b.restartsLen {")
